@@ -71,7 +71,7 @@ def evb_obligation(mode, prefix, final, cb=0, final_max=8, extra_defs=(), ndebug
               unwindset=evb_unwindset(copy, rec),
               cbmc=["--max-field-sensitivity-array-size", str(VP_OBJ), "--object-bits", "10", "--slice-formula"],
               timeout=timeout, mem_gb=mem_gb, ndebug=ndebug)
-    if solver is None and (nm in KISSAT_NAMES or any(k == "MCAST" for _, k, _ in prefix)):
+    if solver is None and (nm in KISSAT_NAMES or any(k == "MCAST" for _, k, _ in prefix) or (cb and fk in ("PULLUP", "EXPAND"))):
         solver = "kissat"      # minisat2 occasionally needs > 900 s on these small instances (measured), kissat 5-60 s
     if solver: ob["solver"] = solver
     if expect_fail: ob["expect_fail"] = expect_fail
@@ -90,7 +90,8 @@ MODEL_LOOPS = (["vpb_init.0", "vpb_copy.0", "vpb_equal.0", "vpb_append.0", "vpb_
 COPY_LOOPS = ["vp_memcpy.0", "vp_memmove.0", "vp_memmove.1", "vp_memchr.0", "vp_memcmp.0", "find_eol_char.0",
               "evbuffer_strspn.0", "evbuffer_strspn.1", "evbuffer_strspn.2", "evbuffer_strchr.0", "evbuffer_find_eol_char.0"]
 HARNESS_CHAIN_LOOPS = ["vp_evb_check.0", "vp_evb_nchains.0", "vp_evb_byte.0", "vp_evb_count_flag.0", "vp_run_deferred.0",
-                       "event_deferred_cb_schedule_.0", "event_deferred_cb_cancel_.0"]      # own concrete counters (<= 6 chains / 3 slots)
+                       "event_deferred_cb_schedule_.0", "event_deferred_cb_cancel_.0"] + \
+                      ["evbuffer_run_callbacks.%d" % i for i in range(4)] + ["evbuffer_remove_all_callbacks.%d" % i for i in range(3)]      # own concrete counters (<= 6 chains / 3 slots)
 def evb_unwindset(copy, rec=1):
     return (["%s:8" % l for l in HARNESS_CHAIN_LOOPS] +["evbuffer_chain_free:%d" % rec, "evbuffer_decref_and_unlock_:%d" % rec, "evbuffer_file_segment_free:1"] +
             ["%s:%d" % (l, 130) for l in MODEL_LOOPS] + ["%s:%d" % (l, copy) for l in COPY_LOOPS])
